@@ -265,7 +265,7 @@ func (us *UnitSpec) Unit() *vc.Unit {
 						panic(spec.EvalError{Msg: err.Error()})
 					}
 					tv := ev.Eval(ex)
-					v = c.coerceInput(tv, prm.Type())
+					v = c.coerceInput(p, prm.Name(), tv, prm.Type())
 				} else {
 					v = c.DefaultInput(p, prm.Name(), prm.Type())
 				}
@@ -322,7 +322,7 @@ func (us *UnitSpec) Unit() *vc.Unit {
 				if tag == "" {
 					tag = fmt.Sprintf("%d", k+1)
 				}
-				p.Assert(fmt.Sprintf("%s/ensures/%s", fname, tag), "post", ev.Bool(e.Expr), fmt.Sprintf("%s:%d", relFile(ct.File), e.Line), "ensures "+e.Text)
+				p.Assert(fmt.Sprintf("%s/ensures/%s", fname, tag), "post", ev.Goal(e.Expr), fmt.Sprintf("%s:%d", relFile(ct.File), e.Line), "ensures "+e.Text)
 			}
 			return result
 		})
@@ -370,7 +370,61 @@ func (c *Ctx) DefaultInput(p *sx.Path, name string, t types.Type) sx.Val {
 	panic(spec.EvalError{Msg: fmt.Sprintf("no default symbolic input for parameter %s of type %s: give an 'input:%s' line", name, t, name)})
 }
 
-func (c *Ctx) coerceInput(tv spec.TV, t types.Type) sx.Val {
+// ShapeSpec is the value of the builtin shape(n1, n2, ...): an input of the
+// parameter's type with symbolic scalar leaves, whose slices have the given
+// concrete lengths (consumed in depth-first order; the last one repeats).
+type ShapeSpec struct {
+	Dims []int64
+	Name string
+}
+
+// SymByType builds a value of type t with symbolic leaves.
+func (c *Ctx) SymByType(p *sx.Path, name string, t types.Type, dims *[]int64) sx.Val {
+	switch u := t.Underlying().(type) {
+	case *types.Basic:
+		if u.Info()&types.IsInteger != 0 {
+			return smt.Var("in."+name, sx.SortOf(t))
+		}
+		if u.Info()&types.IsBoolean != 0 {
+			return smt.Var("in."+name, smt.Bool)
+		}
+	case *types.Struct:
+		s := &sx.Struct{F: make([]sx.Val, u.NumFields())}
+		for i := range s.F {
+			s.F[i] = c.SymByType(p, name+"."+u.Field(i).Name(), u.Field(i).Type(), dims)
+		}
+		return s
+	case *types.Slice:
+		n := int64(0)
+		if len(*dims) > 0 {
+			n = (*dims)[0]
+			if len(*dims) > 1 {
+				*dims = (*dims)[1:]
+			}
+		}
+		if n < 0 {
+			return sx.Slice{Off: smt.BVU(0, 64), Len: smt.BVU(0, 64), Cap: smt.BVU(0, 64)} // nil
+		}
+		els := make([]sx.Val, n)
+		for i := range els {
+			els[i] = c.SymByType(p, fmt.Sprintf("%s.%d", name, i), u.Elem(), dims)
+		}
+		if n == 0 {
+			// an empty, non-nil slice
+			return p.NewSlice(u.Elem(), nil)
+		}
+		return p.NewSlice(u.Elem(), els)
+	case *types.Pointer:
+		return sx.Ptr{Obj: p.Alloc(c.SymByType(p, name, u.Elem(), dims))}
+	}
+	panic(spec.EvalError{Msg: fmt.Sprintf("no symbolic input for %s of type %s", name, t)})
+}
+
+func (c *Ctx) coerceInput(p *sx.Path, name string, tv spec.TV, t types.Type) sx.Val {
+	if sh, ok := tv.V.(ShapeSpec); ok {
+		dims := append([]int64{}, sh.Dims...)
+		return c.SymByType(p, name, t, &dims)
+	}
 	if tv.T == nil {
 		if b, ok := tv.V.(interface{ Int64() int64 }); ok {
 			return smt.BVI(b.Int64(), sx.SortOf(t).W)
